@@ -83,6 +83,16 @@ var lgTable = []lgEntry{
 	{Rule: "L1", Func: "tensor.(StdEng).StackDense", Site: "$r.denseSimpleStack(", Goal: "%allNoMat", Props: []string{"C10"}, Why: "the block-copy stack reads raw storage of every operand (the accumulator itself is rule LA)"},
 	{Rule: "L1", Func: "tensor.(StdEng).denseRepeat", Site: "fastCopyDenseRepeat(", Goal: "!(%ok && %td.IsMaterializable())", OrStep: ".Materialize()", Props: []string{"C10"}, Why: "block copies read the operand's raw storage: views and lazily transposed operands are materialised first"},
 	{Rule: "L1", Func: "tensor.(StdEng).denseRepeat", Site: "copyDenseSliced(", Goal: "!(%ok && %td.IsMaterializable())", OrStep: ".Materialize()", Props: []string{"C10"}, Why: "block copies read the operand's raw storage: views and lazily transposed operands are materialised first"},
+	{Rule: "L3", Func: "tensor.(StdEng).denseRepeat", Site: "fastCopyDenseRepeat(", Goal: "!(%ok && %td.DataOrder().IsColMajor())", OrStep: ".Materialize()|= copyDenseIter(", Props: []string{"C10", "C16"}, Why: "block copies read the operand as row-major storage: a column-major operand is copied into row-major form first (finding 61)"},
+	{Rule: "L3", Func: "tensor.(StdEng).denseRepeat", Site: "copyDenseSliced(", Goal: "!(%ok && %td.DataOrder().IsColMajor())", OrStep: ".Materialize()|= copyDenseIter(", Props: []string{"C10", "C16"}, Why: "block copies read the operand as row-major storage: a column-major operand is copied into row-major form first (finding 61)"},
+	{Rule: "L3", Func: "tensor.(StdEng).denseRepeat", Site: "fastCopyDenseRepeat(", Goal: "!%d.DataOrder().IsColMajor()", Props: []string{"C10", "C16"}, Why: "block copies fill the destination in row-major storage order: a column-major reuse tensor is refused"},
+	{Rule: "L3", Func: "tensor.(StdEng).denseRepeat", Site: "copyDenseSliced(", Goal: "!%d.DataOrder().IsColMajor()", Props: []string{"C10", "C16"}, Why: "block copies fill the destination in row-major storage order: a column-major reuse tensor is refused"},
+	{Rule: "L1", Func: "tensor.(StdEng).SoftMax", Site: "$r.softMax", Goal: "!($ret1 != nil)", MustStep: "$ret1 = softMaxLayout($x, %reuse)", Props: []string{"C16"}, Why: "the softmax kernels walk the backing arrays of operands and result as contiguous row-major storage: the layout gate (rule SM) sees every one of them and its refusal is honoured (finding 63)"},
+	{Rule: "L1", Func: "tensor.(StdEng).LogSoftMax", Site: "$r.softMax", Goal: "!($ret1 != nil)", MustStep: "$ret1 = softMaxLayout($x, %reuse)", Props: []string{"C16"}, Why: "the softmax kernels walk the backing arrays of operands and result as contiguous row-major storage: the layout gate (rule SM) sees every one of them and its refusal is honoured (finding 63)"},
+	{Rule: "L1", Func: "tensor.(StdEng).SoftMaxB", Site: "$r.softMax", Goal: "!($ret1 != nil)", MustStep: "$ret1 = softMaxLayout($output, $grad, %reuse)", Props: []string{"C16"}, Why: "the softmax kernels walk the backing arrays of operands and result as contiguous row-major storage: the layout gate (rule SM) sees every one of them and its refusal is honoured (finding 63)"},
+	{Rule: "L1", Func: "tensor.(StdEng).LogSoftMaxB", Site: "$r.softMax", Goal: "!($ret1 != nil)", MustStep: "$ret1 = softMaxLayout($output, $grad, %reuse)", Props: []string{"C16"}, Why: "the softmax kernels walk the backing arrays of operands and result as contiguous row-major storage: the layout gate (rule SM) sees every one of them and its refusal is honoured (finding 63)"},
+	{Rule: "L1", Func: "tensor.(*Dense).Eq", Site: "$r.array.Eq(", Goal: "(!$r.RequiresIterator() && !%ot.RequiresIterator())", Props: []string{"C16", "C04"}, Why: "the array comparison pairs the two backing arrays position by position (finding 62)"},
+	{Rule: "L3", Func: "tensor.(*Dense).Eq", Site: "$r.array.Eq(", Goal: "$r.DataOrder().HasSameOrder(%ot.DataOrder())", Props: []string{"C16"}, Why: "the array comparison pairs the two backing arrays position by position: a row-major and a column-major tensor with the same contents differ in storage (finding 62)"},
 	{Rule: "L1", Func: "tensor.(StdEng).RepeatReuse", Site: "$r.denseRepeat(", Goal: "(%ok && $reuse.Shape().Eq(%newShape))", Props: []string{"C10", "C13"}, Why: "a reuse destination is accepted only when its shape is the computed result shape: the repeat fills it by the result's geometry, and the returned tensor must have the shape the shape-only calculator predicts"},
 	// ---- mask inspection (C15) -----------------------------------------------------------------------
 	{Rule: "L1", Func: "tensor.doMaskAll", Site: "range %ts.mask", Goal: "(%ts.IsMasked() && (%ts.Size() == len(%ts.mask)))", Props: []string{"C15"}, Why: "the whole-mask fold is the fold over the tensor's elements only when the mask covers exactly those elements (a view's mask window is longer)"},
@@ -272,7 +282,7 @@ func LGuards(rc *RC, prop string) {
 				if e.OrStep != "" {
 					found := false
 					for _, st := range p.Steps[:min(hit, len(p.Steps))] {
-						if strings.Contains(st.Head, e.OrStep) {
+						if orStepMatches(st.Head, e.OrStep) {
 							found = true
 						}
 					}
@@ -328,7 +338,7 @@ func LGuards(rc *RC, prop string) {
 // implies (old value && !others[i].RequiresIterator()); a path that leaves the loop early
 // must have it false.
 func LA(rc *RC) {
-	rc.S.Declare("LA", "layout accumulator: the flag guarding StackDense's raw block-copy path is true only if no operand requires an iterator (initial value and every loop path checked by implication)", 1)
+	rc.S.Declare("LA", "layout accumulator: the flag guarding StackDense's raw block-copy path is true only if no operand requires an iterator or is column-major (initial value and every loop path checked by implication)", 1)
 	key := "tensor.(StdEng).StackDense"
 	fi := anchor(rc, "LA", key)
 	if fi == nil {
@@ -357,6 +367,9 @@ func LA(rc *RC) {
 				initOK = true
 			} else {
 				bad = append(bad, "initial value "+n.Value+" does not imply !t.RequiresIterator()")
+			}
+			if !ir.Implies([]*ir.BExpr{f}, ir.BNot(ir.BAtom("$t.DataOrder().IsColMajor()"))) {
+				bad = append(bad, "initial value "+n.Value+" does not imply that t is row-major: the block copy lays a column-major operand out in storage order")
 			}
 		}
 	}
@@ -391,10 +404,10 @@ func LA(rc *RC) {
 				}
 			}
 			_ = assigned
-			goal := ir.BAnd(old, ir.BNot(riO))
+			goal := ir.BAnd(old, ir.BAnd(ir.BNot(riO), ir.BNot(ir.BAtom("$others["+idx+"].DataOrder().IsColMajor()"))))
 			prem := append(append([]*ir.BExpr{}, f...), final)
 			if !ir.Implies(prem, goal) {
-				bad = append(bad, fmt.Sprintf("on the loop path [%s] the flag can stay/become true although an operand requires an iterator (or an earlier one did)", strings.Join(p.Guards, " && ")))
+				bad = append(bad, fmt.Sprintf("on the loop path [%s] the flag can stay/become true although an operand requires an iterator or is column-major (or an earlier one was)", strings.Join(p.Guards, " && ")))
 			}
 			if p.Exit == "break" || p.Exit == "return" {
 				if !ir.Implies(prem, ir.BConst(false)) && !ir.Implies(append(append([]*ir.BExpr{}, f...), final), ir.BNot(final)) {
@@ -573,5 +586,161 @@ func P3map(rc *RC) {
 		o.Sig = fmt.Sprintf("%d of %d kernel paths", len(bad), n)
 	} else {
 		rc.S.Ok("P3", key, pos, fmt.Sprintf("%d kernel paths, all over the operand's elements", n))
+	}
+}
+
+// SO: stack result order. Both copy schemes of StackDense (block copy and iterator copy) write
+// the result block after block in row-major storage order. The access pattern the result is
+// given must therefore be row-major whatever the operands are: its strides are the fixed
+// row-major recurrence over the new shape and its data-order argument has had the column-major
+// bit cleared by the statement that last touches it before the MakeAP call
+// (`if o.IsColMajor() { o = o.toggleColMajor() }`, or a constant without the bit). A result
+// flagged column-major, or given column-major strides, reads every block back from the wrong
+// place (finding 60).
+func SO(rc *RC) {
+	rc.S.Declare("SO", "stack result order: the access pattern StackDense builds for its result has row-major strides over the new shape and an order argument whose column-major bit was cleared on every path", 1)
+	key := "tensor.(StdEng).StackDense"
+	fi := anchor(rc, "SO", key)
+	if fi == nil {
+		return
+	}
+	_, tree := sCanon(rc, fi)
+	idx := -1
+	for i, n := range tree {
+		if (n.Kind == "let" || n.Kind == "store") && strings.HasPrefix(n.Value, "MakeAP(") {
+			idx = i
+		}
+	}
+	if idx < 0 {
+		rc.S.Undec("SO", key, rc.P.Pos(fi.Decl.Pos()), "no top-level `x = MakeAP(…)` statement found")
+		return
+	}
+	n := tree[idx]
+	pos := rc.P.Pos(n.Pos)
+	args := splitArgs(strings.TrimSuffix(strings.TrimPrefix(n.Value, "MakeAP("), ")"))
+	if len(args) != 4 {
+		rc.S.Undec("SO", key, pos, "MakeAP call with an unexpected argument list: "+n.Value)
+		return
+	}
+	for i := range args {
+		args[i] = strings.TrimSpace(args[i])
+	}
+	var bad []string
+	// strides: the row-major recurrence over the shape argument (directly or through a local
+	// assigned exactly once at top level)
+	strides := args[1]
+	if ldIdent.FindString(strides) == strides {
+		cnt := 0
+		for _, m := range flatten(tree) {
+			if (m.Kind == "let" || m.Kind == "store") && m.Target == strides {
+				cnt++
+				strides = m.Value
+			}
+		}
+		if cnt != 1 {
+			bad = append(bad, "the strides argument "+args[1]+" is assigned on more than one path (a data-order dependent choice)")
+		}
+	}
+	if strides != args[0]+".CalcStrides()" {
+		bad = append(bad, "the strides argument is "+strides+", want the row-major recurrence "+args[0]+".CalcStrides()")
+	}
+	// order: constant without the bit, or normalised by the last statement that touches it
+	o := args[2]
+	switch {
+	case o == "0" || o == "tensor.DataOrder(0)" || o == "MakeDataOrder()":
+	case ldIdent.FindString(o) != o:
+		bad = append(bad, "the order argument "+o+" is taken from an operand as it is: a column-major operand makes the result column-major")
+	default:
+		norm := false
+		for j := idx - 1; j >= 0; j-- {
+			m := tree[j]
+			txt := ir.Render([]*ir.Node{m})
+			if !ir.HasWord(txt, o) {
+				continue
+			}
+			if m.Kind == "if" && m.Head == o+".IsColMajor()" && len(m.Else) == 0 && len(m.Kids) == 1 && m.Kids[0].Kind == "let" && m.Kids[0].Target == o && m.Kids[0].Value == o+".toggleColMajor()" {
+				norm = true
+			}
+			break
+		}
+		if !norm {
+			bad = append(bad, "the statement that last touches the order argument "+o+" before the MakeAP call does not clear its column-major bit")
+		}
+	}
+	if len(bad) > 0 {
+		rc.S.Viol("SO", key, pos, strings.Join(bad, "; ")).Sig = "result not row-major"
+	} else {
+		rc.S.Ok("SO", key, pos, "strides "+strides+", order "+o+" with the column-major bit cleared")
+	}
+}
+
+// orStepMatches: OrStep is a `|`-separated list of alternatives.
+func orStepMatches(head, or string) bool {
+	for _, alt := range strings.Split(or, "|") {
+		if alt != "" && strings.Contains(head, alt) {
+			return true
+		}
+	}
+	return false
+}
+
+// SM: the layout gate of the softmax family. softMaxLayout returns nil only if none of the
+// tensors it is shown requires an iterator or is column-major: inside the loop over its
+// arguments the refusing branch is taken at least under each of the two facts, the only
+// skipped argument is a nil one, and nil is returned only after the loop.
+func SM(rc *RC) {
+	rc.S.Declare("SM", "softmax layout gate: softMaxLayout refuses (returns a non-nil error for) every argument that requires an iterator or is column-major", 1)
+	key := "tensor.softMaxLayout"
+	fi := anchor(rc, "SM", key)
+	if fi == nil {
+		return
+	}
+	pos := rc.P.Pos(fi.Decl.Pos())
+	_, tree := sCanon(rc, fi)
+	var bad []string
+	loops := 0
+	for _, n := range tree {
+		switch {
+		case n.Kind == "range" && strings.HasPrefix(n.Head, "range $ts as "):
+			loops++
+			idx := strings.TrimPrefix(n.Head, "range $ts as ")
+			el := "$ts[" + idx + "]"
+			paths, ok := ir.EnumPaths(n.Kids, 64)
+			if !ok {
+				rc.S.Undec("SM", key, pos, "too many paths in the loop body")
+				return
+			}
+			for _, p := range paths {
+				f := pathG(p)
+				refuses := p.Exit == "return" && p.Ret != "nil" && p.Ret != ""
+				if refuses {
+					continue
+				}
+				// a non-refusing path: the element is nil, or neither fact can hold
+				isNil := ir.Implies(f, ir.ParseBool("("+el+" == nil)"))
+				if isNil {
+					continue
+				}
+				for _, fact := range []string{el + ".RequiresIterator()", el + ".DataOrder().IsColMajor()"} {
+					if !ir.Implies(f, ir.BNot(ir.BAtom(fact))) {
+						bad = append(bad, fmt.Sprintf("an argument with %s can pass the loop body without refusal on [%s]", fact, strings.Join(p.Guards, " && ")))
+					}
+				}
+				if p.Exit == "return" || p.Exit == "break" {
+					bad = append(bad, "the loop is left early without a refusal: later arguments are never examined")
+				}
+			}
+		case n.Kind == "return":
+		case n.Kind == "if":
+			bad = append(bad, "a branch outside the loop over the arguments decides the result: "+n.Head)
+		}
+	}
+	if loops != 1 {
+		bad = append(bad, fmt.Sprintf("%d loops over the arguments, want 1", loops))
+	}
+	if len(bad) > 0 {
+		rc.S.Viol("SM", key, pos, strings.Join(uniqSorted(bad), "; ")).Sig = "gate too weak"
+	} else {
+		rc.S.Ok("SM", key, pos, "every argument is refused when it requires an iterator or is column-major")
 	}
 }
